@@ -439,8 +439,11 @@ def _private_rules(fn):
             if not ok:
                 raise TableError('main assigns the attribute %s: module / object state written in a way the model does not know' % ast.unparse(n))
     pg = calls_in(fn, 'parse_and_group')
-    if len(pg) != 1 or len(pg[0].args) < 3 or ast.unparse(pg[0].args[2]) != x:
-        raise TableError('the extractor built above is not the third argument of the one parse_and_group call')
+    if len(pg) != 1:
+        raise TableError('expected exactly one parse_and_group call in main, found %d' % len(pg))
+    xarg = pg[0].args[2] if len(pg[0].args) >= 3 else ([k.value for k in pg[0].keywords if k.arg == 'extractor'] or [None])[0]
+    if xarg is None or ast.unparse(xarg) != x:
+        raise TableError('the extractor built above is not handed to the one parse_and_group call (third argument or extractor=)')
     names = []
     for e in st.value.elts:
         if not (isinstance(e, ast.Attribute) and isinstance(e.value, ast.Name) and e.value.id == 'extract'):
